@@ -1868,97 +1868,131 @@ pub fn exec_crash(lines: &[String], out: &mut Out, scratch: &Path, ops_file: &Pa
         }
         ctx.main.close();
         ctx.twin.close();
-        // crash points
-        for (pi, (line_no, writes, committed_before, max_ever_then, reorg_target, durable)) in points.iter().enumerate() {
-            if *writes == 0 {
+        // crash points: (point, write index) pairs, handled by a pool of workers (each crash is a child process)
+        let mut work: Vec<(usize, u64)> = Vec::new();
+        for (pi, p) in points.iter().enumerate() {
+            let writes = p.1;
+            if writes == 0 {
                 continue;
             }
-            let idxs: Vec<u64> = if exhaustive || *writes <= 12 {
-                (0..*writes).collect()
+            let idxs: Vec<u64> = if exhaustive || writes <= 12 {
+                (0..writes).collect()
             } else {
                 let mut r = Rng::new(ci as u64 * 1000 + pi as u64);
-                let mut v: Vec<u64> = vec![0, 1, 2, *writes - 1, *writes / 2];
+                let mut v: Vec<u64> = vec![0, 1, 2, writes - 1, writes / 2];
                 for _ in 0..6 {
-                    v.push(r.below(*writes));
+                    v.push(r.below(writes));
                 }
                 v.sort();
                 v.dedup();
                 v
             };
-            for i in idxs {
-                let dir = scratch.join(format!("crash-{}-{}-{}", ci, pi, i));
-                let _ = std::fs::remove_dir_all(&dir);
-                let status = std::process::Command::new(&exe)
-                    .args(["xchild", "X", "--ops", ops_file.to_str().unwrap(), "--case", case, "--upto", &line_no.to_string(), "--crash-at", &i.to_string(), "--dir", dir.to_str().unwrap()])
-                    .stdout(std::process::Stdio::null())
-                    .stderr(std::process::Stdio::null())
-                    .status();
-                let aborted = status.map(|s| !s.success()).unwrap_or(true);
-                out.count(if aborted { "crashed" } else { "no-crash" });
-                // reopen and roll back to a durable height inside the window
-                let durable_top = match (committed_before, reorg_target) {
-                    (Some(c), Some(t)) => Some((*c).min(*t)),
-                    (Some(c), None) => Some(*c),
-                    (None, _) => None,
-                };
-                let inst = Inst::open(&dir, rt.clone());
-                if let Some(top) = durable_top {
-                    let lo = max_ever_then.saturating_sub(W);
-                    let mut targets: Vec<u64> = vec![top];
-                    if top > lo {
-                        targets.push(lo.max(top.saturating_sub(1)));
+            work.extend(idxs.into_iter().map(|i| (pi, i)));
+        }
+        let next = std::sync::atomic::AtomicUsize::new(0);
+        let results: std::sync::Mutex<Vec<(usize, Vec<&'static str>, Vec<(&'static str, String)>)>> = std::sync::Mutex::new(Vec::new());
+        let workers = std::thread::available_parallelism().map(|n| n.get()).unwrap_or(4).min(10);
+        std::thread::scope(|sc| {
+            for _ in 0..workers {
+                sc.spawn(|| loop {
+                    let wi = next.fetch_add(1, std::sync::atomic::Ordering::SeqCst);
+                    if wi >= work.len() {
+                        break;
                     }
-                    targets.dedup();
-                    // only the first target is tried on this directory (a reorg changes it); the other on a copy
-                    let n = targets[(i as usize) % targets.len()];
-                    if n >= lo {
-                        let r = inst.call("brc20_reorg", json!([n]));
-                        if err_class(&r) != "ok" {
-                            out.oracle_fail(case, "crash-reorg-refused", &format!("after a crash before write {} of `{}`, reorg({}) answered {} (durable height {}, highest ever {})", i, script[*line_no], n, err_class(&r), top, max_ever_then));
-                        } else {
-                            // fresh replay up to n
-                            let fresh = new_inst(scratch, &mut n_inst, &rt);
-                            let mut ref_ctx = fresh_ctx(Inst::open(&scratch.join("unused-a"), rt.clone()), Inst::open(&scratch.join("unused-b"), rt.clone()), &rt, scratch, n_inst, case);
-                            ref_ctx.known_hashes = ctx.known_hashes.clone();
-                            ref_ctx.known_addrs = ctx.known_addrs.clone();
-                            ref_ctx.insc_of = ctx.insc_of.clone();
-                            ref_ctx.labels = ctx.labels.clone();
-                            for (b0, l) in durable.iter() {
-                                if *b0 > n {
-                                    continue;
+                    let (pi, i) = work[wi];
+                    let (line_no, writes, committed_before, max_ever_then, reorg_target, durable) = &points[pi];
+                    let mut counts: Vec<&'static str> = Vec::new();
+                    let mut fails: Vec<(&'static str, String)> = Vec::new();
+                    let dir = scratch.join(format!("crash-{}-{}-{}", ci, pi, i));
+                    let _ = std::fs::remove_dir_all(&dir);
+                    let status = std::process::Command::new(&exe)
+                        .args(["xchild", "X", "--ops", ops_file.to_str().unwrap(), "--case", case, "--upto", &line_no.to_string(), "--crash-at", &i.to_string(), "--dir", dir.to_str().unwrap()])
+                        .stdout(std::process::Stdio::null())
+                        .stderr(std::process::Stdio::null())
+                        .status();
+                    let aborted = status.map(|s| !s.success()).unwrap_or(true);
+                    counts.push(if aborted { "crashed" } else { "no-crash" });
+                    // reopen and roll back to a durable height inside the window
+                    let durable_top = match (committed_before, reorg_target) {
+                        (Some(c), Some(t)) => Some((*c).min(*t)),
+                        (Some(c), None) => Some(*c),
+                        (None, _) => None,
+                    };
+                    let inst = Inst::open(&dir, rt.clone());
+                    if let Some(top) = durable_top {
+                        let lo = max_ever_then.saturating_sub(W);
+                        let mut targets: Vec<u64> = vec![top];
+                        if top > lo {
+                            targets.push(lo.max(top.saturating_sub(1)));
+                        }
+                        targets.dedup();
+                        let n = targets[(i as usize) % targets.len()];
+                        if n >= lo {
+                            let r = inst.call("brc20_reorg", json!([n]));
+                            if err_class(&r) != "ok" {
+                                fails.push(("crash-reorg-refused", format!("after a crash before write {} of `{}`, reorg({}) answered {} (durable height {}, highest ever {})", i, script[*line_no], n, err_class(&r), top, max_ever_then)));
+                            } else {
+                                // fresh replay of the durable history up to n
+                                let fdir = scratch.join(format!("fresh-{}-{}-{}", ci, pi, i));
+                                let _ = std::fs::remove_dir_all(&fdir);
+                                let fresh = Inst::open(&fdir, rt.clone());
+                                let ua = scratch.join(format!("unused-a-{}-{}-{}", ci, pi, i));
+                                let ub = scratch.join(format!("unused-b-{}-{}-{}", ci, pi, i));
+                                let mut ref_ctx = fresh_ctx(Inst::closed(&ua, rt.clone()), Inst::closed(&ub, rt.clone()), &rt, scratch, 0, case);
+                                ref_ctx.known_hashes = ctx.known_hashes.clone();
+                                ref_ctx.known_addrs = ctx.known_addrs.clone();
+                                ref_ctx.insc_of = ctx.insc_of.clone();
+                                ref_ctx.labels = ctx.labels.clone();
+                                for (b0, l) in durable.iter() {
+                                    if *b0 > n {
+                                        continue;
+                                    }
+                                    let op = l.split(' ').next().unwrap_or("");
+                                    let f = kv(l);
+                                    if op == "mine" {
+                                        let cnt: u64 = f.get("count").and_then(|s| s.parse().ok()).unwrap_or(0);
+                                        let last = b0 + cnt.saturating_sub(1);
+                                        let cnt = if last > n { n + 1 - b0 } else { cnt };
+                                        let _ = fresh.call("brc20_mine", json!([cnt, f.get("ts").and_then(|s| s.parse::<u64>().ok()).unwrap_or(0)]));
+                                        continue;
+                                    }
+                                    if let Some((m, p)) = params_for(&ctx, op, &f) {
+                                        let _ = fresh.call(&m, p);
+                                    }
                                 }
-                                let op = l.split(' ').next().unwrap_or("");
-                                let f = kv(l);
-                                if op == "mine" {
-                                    let cnt: u64 = f.get("count").and_then(|s| s.parse().ok()).unwrap_or(0);
-                                    let last = b0 + cnt.saturating_sub(1);
-                                    let cnt = if last > n { n + 1 - b0 } else { cnt };
-                                    let _ = fresh.call("brc20_mine", json!([cnt, f.get("ts").and_then(|s| s.parse::<u64>().ok()).unwrap_or(0)]));
-                                    continue;
+                                let a = observation(&inst, &ref_ctx);
+                                let b = observation(&fresh, &ref_ctx);
+                                if let Some(d) = first_difference(&a, &b, "obs") {
+                                    fails.push(("crash-not-recovered", format!("crash before write {}/{} of `{}`, reopen, reorg({}): differs from a fresh replay up to {}: {}", i, writes, script[*line_no].chars().take(40).collect::<String>(), n, n, d)));
                                 }
-                                if let Some((m, p)) = params_for(&ctx, op, &f) {
-                                    let _ = fresh.call(&m, p);
-                                }
+                                counts.push("recovered-compared");
+                                let mut fr = fresh;
+                                fr.close();
+                                let _ = std::fs::remove_dir_all(&fdir);
+                                ref_ctx.main.close();
+                                ref_ctx.twin.close();
+                                let _ = std::fs::remove_dir_all(&ua);
+                                let _ = std::fs::remove_dir_all(&ub);
                             }
-                            let a = observation(&inst, &ref_ctx);
-                            let b = observation(&fresh, &ref_ctx);
-                            if let Some(d) = first_difference(&a, &b, "obs") {
-                                out.oracle_fail(case, "crash-not-recovered", &format!("crash before write {}/{} of `{}`, reopen, reorg({}): differs from a fresh replay up to {}: {}", i, writes, script[*line_no].chars().take(40).collect::<String>(), n, n, d));
-                            }
-                            out.count("recovered-compared");
-                            let mut fr = fresh;
-                            fr.close();
-                            let _ = std::fs::remove_dir_all(&fr.dir);
-                            ref_ctx.main.close();
-                            ref_ctx.twin.close();
                         }
                     }
-                }
-                let mut inst = inst;
-                inst.close();
-                let _ = std::fs::remove_dir_all(&dir);
-                let _ = std::fs::remove_dir_all(dir.with_extension("twin"));
-                let _ = std::fs::remove_dir_all(dir.with_extension("out"));
+                    let mut inst = inst;
+                    inst.close();
+                    let _ = std::fs::remove_dir_all(&dir);
+                    let _ = std::fs::remove_dir_all(dir.with_extension("twin"));
+                    let _ = std::fs::remove_dir_all(dir.with_extension("out"));
+                    results.lock().unwrap().push((wi, counts, fails));
+                });
+            }
+        });
+        let mut results = results.into_inner().unwrap();
+        results.sort_by_key(|r| r.0);
+        for (_, counts, fails) in results {
+            for c in counts {
+                out.count(c);
+            }
+            for (fam, msg) in fails {
+                out.oracle_fail(case, fam, &msg);
             }
         }
         out.line(&format!("xcase {} points={}", case, points.len()), "done");
